@@ -12,6 +12,19 @@ Interface-level theorems over the model of the peek/consume window
   the filter stays failed;
 * `no_invented_data`: under any fault script every window handed to a parser is
   a contiguous piece of the original stream.
+With `__archive_read_filter_seek`:
+* `seek_never_silent`: whatever the seek callback does (errors at any invocation,
+  block-aligned landings), a seek either reports failure or leaves the filter
+  consistent exactly at the position it returns; `seek_out_of_range_reported`,
+  `seek_callback_fault_reported`; `fatal_is_sticky` covers seek;
+* `no_invented_data_seek`: the same for op sequences with seeks on seekable
+  multi-node sources, as long as the client does not read between a failed seek
+  and the next successful one (`opsSafe`); without that proviso the statement is
+  false of the code as it is (`failed_seek_leaves_stream_false`: open finding
+  "seek-failure-desync");
+* `truncation_prefix` holds for clients that seek with SEEK_SET / SEEK_CUR; with
+  SEEK_END a truncated seekable stream is indistinguishable from a shorter one
+  (`truncation_prefix_seek_end_false`).
 -/
 import LA.Props.C05
 namespace LA.C08
@@ -20,25 +33,38 @@ open LA.RA LA.C05
 inductive Ev
   | ahead (o : Obs)
   | consumed (r : Int)
+  | seeked (r : Int)
   deriving DecidableEq, Repr
 
 def Ev.failed : Ev → Bool
   | .ahead (.ok _) => false
   | .ahead _ => true
   | .consumed r => r < 0
+  | .seeked r => r < 0
 
 /-- Run a client on the abstract stream up to (and including) the first failure
 it is told about. -/
-def runUntilFail {α : Type} : Prog α → Spec → List Ev × Option α
+def runUntilFail {α : Type} : Prog α → SSpec → List Ev × Option α
   | .ret a, _ => ([], some a)
   | .ahead min _ k, sp =>
-    match specAhead sp min with
+    match sspecAhead sp min with
     | (.ok b, sp') => let r := runUntilFail (k (.ok b)) sp'; (.ahead (.ok b) :: r.1, r.2)
     | (o, _) => ([.ahead o], none)
   | .consume n k, sp =>
-    let c := specConsume sp n
+    let c := sspecConsume sp n
     if c.1 < 0 then ([.consumed c.1], none)
     else let r := runUntilFail (k c.1) c.2; (.consumed c.1 :: r.1, r.2)
+  | .seek off w k, sp =>
+    let c := specSeek sp off w
+    if c.1 < 0 then ([.seeked c.1], none)
+    else let r := runUntilFail (k c.1) c.2; (.seeked c.1 :: r.1, r.2)
+
+/-- The client never seeks relative to the end of the stream. -/
+def NoSeekEnd {α : Type} : Prog α → Prop
+  | .ret _ => True
+  | .ahead _ _ k => ∀ o, NoSeekEnd (k o)
+  | .consume _ k => ∀ r, NoSeekEnd (k r)
+  | .seek _ w k => w ≠ .end_ ∧ ∀ r, NoSeekEnd (k r)
 
 theorem take_prefix (a b : List Nat) (n : Nat) (h : a <+: b) (hn : n ≤ a.length) : a.take n = b.take n := by
   obtain ⟨t, rfl⟩ := h
@@ -55,60 +81,121 @@ theorem drop_prefix (a b : List Nat) (n : Nat) (h : a <+: b) : a.drop n <+: b.dr
 one (cut at any byte offset, ending in end-of-file or in a callback error),
 then either the client cannot tell the difference, or its run on the cut stream
 ends in a reported failure and everything it was given before that is exactly
-what the intact stream gives it. -/
-theorem truncation_prefix {α : Type} (p : Prog α) (remT remF : List Nat) (tT tF : Term)
-    (h : remT <+: remF) :
-    let T := runUntilFail p ⟨remT, tT, false⟩
-    let F := runUntilFail p ⟨remF, tF, false⟩
+what the intact stream gives it.  The client may seek (SEEK_SET, SEEK_CUR), also
+beyond the cut — that seek is then refused. -/
+theorem truncation_prefix {α : Type} (p : Prog α) (allT allF : List Nat) (pos : Nat) (tT tF : Term) (cs : Bool)
+    (h : allT <+: allF) (hp : NoSeekEnd p) :
+    let T := runUntilFail p ⟨allT, pos, tT, false, cs, false⟩
+    let F := runUntilFail p ⟨allF, pos, tF, false, cs, false⟩
     T = F ∨ (T.2 = none ∧ ∃ pre last, T.1 = pre ++ [last] ∧ last.failed = true ∧ pre <+: F.1) := by
-  induction p generalizing remT remF with
+  induction p generalizing pos with
   | ret a => left; rfl
   | ahead min hm k ih =>
-    by_cases hle : min ≤ remT.length
-    · have hle' : min ≤ remF.length := Nat.le_trans hle h.length_le
-      have e : remT.take min = remF.take min := take_prefix _ _ _ h hle
-      have := ih (.ok (remF.take min)) remT remF h
-      simp only [runUntilFail, specAhead, hle, hle', e, if_true, Bool.false_eq_true, if_false]
+    have hd := drop_prefix _ _ pos h
+    by_cases hle : min ≤ (allT.drop pos).length
+    · have hle' : min ≤ (allF.drop pos).length := Nat.le_trans hle hd.length_le
+      have e : (allT.drop pos).take min = (allF.drop pos).take min := take_prefix _ _ _ hd hle
+      have := ih (.ok ((allF.drop pos).take min)) pos (hp _)
+      simp only [runUntilFail, sspecAhead_live, hle, hle', e, if_true]
       rcases this with h1 | ⟨h1, pre, last, h2, h3, h4⟩
       · left; rw [h1]
       · right
-        refine ⟨h1, Ev.ahead (.ok (remF.take min)) :: pre, last, by simp [h2], h3, ?_⟩
+        refine ⟨h1, Ev.ahead (.ok ((allF.drop pos).take min)) :: pre, last, by simp [h2], h3, ?_⟩
         exact List.cons_prefix_cons.mpr ⟨rfl, h4⟩
     · right
-      simp only [runUntilFail, specAhead, hle, if_false, Bool.false_eq_true]
+      simp only [runUntilFail, sspecAhead_live, hle, if_false]
       cases tT <;> exact ⟨rfl, [], _, rfl, rfl, List.nil_prefix⟩
   | consume n k ih =>
+    have hd := drop_prefix _ _ pos h
     by_cases h1 : n < 0
-    · left; simp [runUntilFail, specConsume, h1]
+    · left; simp [runUntilFail, sspecConsume_live, h1]
     · by_cases h2 : n = 0
-      · have := ih 0 remT remF h
-        simp only [runUntilFail, specConsume, h1, h2, if_false, if_true, Int.lt_irrefl]
+      · have := ih 0 pos (hp _)
+        simp only [runUntilFail, sspecConsume_live, h1, h2, if_false, if_true, Int.lt_irrefl]
         rcases this with e | ⟨e1, pre, last, e2, e3, e4⟩
         · left; rw [e]
         · right
           exact ⟨e1, Ev.consumed 0 :: pre, last, by simp [e2], e3, List.cons_prefix_cons.mpr ⟨rfl, e4⟩⟩
-      · by_cases hle : n.toNat ≤ remT.length
-        · have hle' : n.toNat ≤ remF.length := Nat.le_trans hle h.length_le
-          have := ih n (remT.drop n.toNat) (remF.drop n.toNat) (drop_prefix _ _ _ h)
-          simp only [runUntilFail, specConsume, h1, h2, hle, hle', if_false, if_true, Bool.false_eq_true]
+      · by_cases hle : n.toNat ≤ (allT.drop pos).length
+        · have hle' : n.toNat ≤ (allF.drop pos).length := Nat.le_trans hle hd.length_le
+          have := ih n (pos + n.toNat) (hp _)
+          simp only [runUntilFail, sspecConsume_live, h1, h2, hle, hle', if_false, if_true]
           rcases this with e | ⟨e1, pre, last, e2, e3, e4⟩
           · left; rw [e]
           · right
             exact ⟨e1, Ev.consumed n :: pre, last, by simp [e2], e3, List.cons_prefix_cons.mpr ⟨rfl, e4⟩⟩
         · right
-          simp only [runUntilFail, specConsume, h1, h2, hle, if_false, Bool.false_eq_true]
+          simp only [runUntilFail, sspecConsume_live, h1, h2, hle, if_false]
           cases tT <;> exact ⟨by simp, [], Ev.consumed (-30), by simp, by simp [Ev.failed], List.nil_prefix⟩
+  | seek off w k ih =>
+    obtain ⟨hw, hk⟩ := hp
+    by_cases hcs : cs = true
+    · subst hcs
+      -- the target does not depend on the length of the stream
+      have htg : ∀ all : List Nat, specTarget ⟨all, pos, tT, false, true, false⟩ off w =
+          specTarget ⟨allT, pos, tT, false, true, false⟩ off w := by
+        intro all; cases w <;> first | rfl | exact absurd rfl hw
+      cases ht : specTarget ⟨allT, pos, tT, false, true, false⟩ off w with
+      | none =>
+        left
+        have e1 : specTarget ⟨allT, pos, tT, false, true, false⟩ off w = none := ht
+        have e2 : specTarget ⟨allF, pos, tF, false, true, false⟩ off w = none := by
+          cases w <;> first | rfl | cases ht | exact absurd rfl hw
+        simp [runUntilFail, specSeek, e1, e2]
+      | some t =>
+        have e1 : specTarget ⟨allT, pos, tT, false, true, false⟩ off w = some t := ht
+        have e2 : specTarget ⟨allF, pos, tF, false, true, false⟩ off w = some t := by
+          cases w <;> first | exact ht | exact absurd rfl hw
+        by_cases hin : 0 ≤ t ∧ t ≤ (allT.length : Int)
+        · have hin' : 0 ≤ t ∧ t ≤ (allF.length : Int) := ⟨hin.1, by have := h.length_le; omega⟩
+          have := ih t t.toNat (hk _)
+          have ht0 : ¬ t < 0 := by omega
+          simp only [runUntilFail, specSeek, Bool.false_eq_true, if_false, Bool.not_true, e1, e2, hin, hin',
+            and_self, if_true, ht0]
+          rcases this with e | ⟨a1, pre, last, a2, a3, a4⟩
+          · left; rw [e]
+          · right
+            exact ⟨a1, Ev.seeked t :: pre, last, by simp [a2], a3, List.cons_prefix_cons.mpr ⟨rfl, a4⟩⟩
+        · right
+          simp only [runUntilFail, specSeek, Bool.false_eq_true, if_false, Bool.not_true, e1, hin]
+          exact ⟨by simp, [], Ev.seeked (-30), by simp, by simp [Ev.failed], List.nil_prefix⟩
+    · have hcs' : cs = false := by simpa using hcs
+      subst hcs'
+      left
+      simp [runUntilFail, specSeek]
 
 /-- Non-vacuity: a 3-byte cut of a 5-byte stream, read by a client that peeks 2,
 consumes 2, then needs 2 more. -/
 example : ([1, 2, 3] : List Nat) <+: [1, 2, 3, 4, 5] := by decide
 
+/-- Non-vacuity with seeks: a client that seeks back and forth without SEEK_END. -/
+example : NoSeekEnd (.seek 2 .set fun _ => .ahead 2 (by decide) fun _ => .seek (-1) .cur fun r => .ret r : Prog Int) := by
+  refine ⟨by decide, fun _ _ => ⟨by decide, fun _ => trivial⟩⟩
+
+/-- The statement of `truncation_prefix` without the SEEK_END proviso. -/
+def TruncationPrefixFull : Prop :=
+  ∀ (p : Prog (List Int)) (allT allF : List Nat) (pos : Nat) (tT tF : Term) (cs : Bool), allT <+: allF →
+    let T := runUntilFail p ⟨allT, pos, tT, false, cs, false⟩
+    let F := runUntilFail p ⟨allF, pos, tF, false, cs, false⟩
+    T = F ∨ (T.2 = none ∧ ∃ pre last, T.1 = pre ++ [last] ∧ last.failed = true ∧ pre <+: F.1)
+
+/-- It is false, and not because of the code: "seek to the end" succeeds on a truncated
+seekable stream and reports a different position — at this layer a cut seekable stream IS a
+shorter stream.  (Readers that locate a trailer from the end — zip, 7zip — detect the cut only
+by not finding it.) -/
+theorem truncation_prefix_seek_end_false : ¬ TruncationPrefixFull := by
+  intro h
+  have := h (.seek 0 .end_ fun r => .ret [r]) [1, 2, 3] [1, 2, 3, 4, 5] 0 .eof .eof true (by decide)
+  rcases this with e | ⟨e, _⟩
+  · exact absurd e (by decide)
+  · exact absurd e (by decide)
+
 /-- A body cut short is reported: consuming more than the stream holds returns
 ARCHIVE_FATAL (-30), whatever the source's blocks and a well-behaved skipper do. -/
 theorem consume_short_is_fatal (s : State) (n : Nat) (hi : Inv s) (hf : s.fatal = false)
-    (hsk : SkipsOk s.skips) (hlt : (remaining s).length < n) :
+    (hsk : SkipsOk s.skips) (hns : NoSeekSkip s) (hlt : (remaining s).length < n) :
     (consume s n).1 = -30 := by
-  have hc := (consume_refines s n hi hsk).2.1
+  have hc := (consume_refines s n hi hsk hns).2.1
   rw [hc]
   have h1 : ¬ ((n : Int) < 0) := by omega
   have h2 : ¬ ((n : Int) = 0) := by omega
@@ -120,17 +207,20 @@ theorem consume_short_is_fatal (s : State) (n : Nat) (hi : Inv s) (hf : s.fatal 
 was asked for, at any invocation: the call in progress reports failure and the
 filter is marked failed. -/
 theorem callback_fault_is_fatal (s : State) (n : Nat) (hi : Inv s) (hf : s.fatal = false) (hn : 0 < n)
+    (hns : NoSeekSkip s)
     (hneg : (advance s n).1 < 0) : (advance s n).2.fatal = true := by
-  obtain ⟨_, _, _, g4⟩ := advance_spec s n hi hf hn
+  obtain ⟨_, _, _, g4⟩ := advance_spec s n hi hf hn hns
   rcases g4 with ⟨a1, _⟩ | ⟨a1, _⟩ | ⟨_, a2, _⟩
   · omega
   · omega
   · exact a2
 
-/-- A failed filter stays failed: every later peek and consume reports failure. -/
-theorem fatal_is_sticky (s : State) (hf : s.fatal = true) (min : Nat) (n : Int) (hn : n ≠ 0) :
-    (ahead s min).1 = .fatal ∧ (ahead s min).2 = s ∧ (consume s n).1 = -30 ∧ (consume s n).2.fatal = true := by
-  refine ⟨by simp [ahead, hf], by simp [ahead, hf], ?_, ?_⟩
+/-- A failed filter stays failed: every later peek, consume and seek reports failure and
+changes nothing. -/
+theorem fatal_is_sticky (s : State) (hf : s.fatal = true) (min : Nat) (n : Int) (hn : n ≠ 0) (off : Int) (w : Whence) :
+    (ahead s min).1 = .fatal ∧ (ahead s min).2 = s ∧ (consume s n).1 = -30 ∧ (consume s n).2.fatal = true ∧
+    RA.seek s off w = (-30, s) := by
+  refine ⟨by simp [ahead, hf], by simp [ahead, hf], ?_, ?_, by simp [RA.seek, hf]⟩
   · unfold consume
     by_cases h1 : n < 0
     · simp [h1]
@@ -143,7 +233,156 @@ theorem fatal_is_sticky (s : State) (hf : s.fatal = true) (min : Nat) (n : Int) 
     · simp only [h1, hn, if_false, advance, hf, if_true]
       split <;> exact hf
 
-inductive Op | ahead (min : Nat) | consume (n : Int)
+/-! ### Seeks: reported or exact -/
+
+/-- **A seek is never silent.**  For every seek callback script (errors at any invocation,
+block-aligned landings), on every state with sound bookkeeping — also one left behind by an
+earlier refused seek — `__archive_read_filter_seek` either reports failure (negative status)
+or the filter is consistent again, stands exactly at the position it returns, that position is
+the target or (aligned seeker) lies before it, and the target was inside the stream. -/
+theorem seek_never_silent (s : State) (off : Int) (w : Whence) (t : Int) (hc : CacheOk s) (hs : s.hasSeeker = true)
+    (hcs : s.canSeek = true) (hf : s.fatal = false) (hbl : s.bufSize < 2 ^ 63) (ht : targetOf s off w = some t) :
+    (RA.seek s off w).1 < 0 ∨
+    (Inv (RA.seek s off w).2 ∧ (RA.seek s off w).2.position = (RA.seek s off w).1.toNat ∧
+     remaining (RA.seek s off w).2 = (allBytes s).drop (RA.seek s off w).1.toNat ∧
+     (RA.seek s off w).1 ≤ t ∧ 0 ≤ t ∧ t ≤ ((allBytes s).length : Int)) := by
+  have h := seek_spec s off w hc hs hcs hf hbl
+  rw [ht] at h
+  simp only [] at h
+  rcases h with ⟨p1, p2, _⟩ | ⟨p, _⟩
+  · rcases p1 with ok | bad
+    · right
+      obtain ⟨o1, o2, _, o4, o5, _, _⟩ := ok
+      obtain ⟨q1, q2, q3⟩ := p2 o1
+      exact ⟨o2, o4, o5, q3, q1, q2⟩
+    · left; exact bad.1
+  · left; exact p.1
+
+/-- **An out-of-range target is reported**, whatever the seek callback does. -/
+theorem seek_out_of_range_reported (s : State) (off : Int) (w : Whence) (t : Int) (hc : CacheOk s)
+    (hs : s.hasSeeker = true) (hcs : s.canSeek = true) (hf : s.fatal = false) (hbl : s.bufSize < 2 ^ 63)
+    (ht : targetOf s off w = some t) (hout : t < 0 ∨ ((allBytes s).length : Int) < t) :
+    (RA.seek s off w).1 < 0 ∧ (RA.seek s off w).2.position = s.position := by
+  have h := seek_spec s off w hc hs hcs hf hbl
+  rw [ht] at h
+  simp only [] at h
+  rcases h with ⟨p1, p2, _⟩ | ⟨p, _⟩
+  · rcases p1 with ok | bad
+    · exfalso
+      obtain ⟨q1, q2, _⟩ := p2 ok.1
+      omega
+    · exact ⟨bad.1, bad.2.1.position⟩
+  · exact ⟨p.1, p.2.1.position⟩
+
+/-- Every status a seek can return without a seek callback, on a failed filter, or for an
+unknown `whence` is negative and nothing is touched. -/
+theorem seek_refused_untouched (s : State) (off : Int) (w : Whence)
+    (h : s.fatal = true ∨ s.canSeek = false ∨ w = .other) :
+    (RA.seek s off w).1 < 0 ∧ (RA.seek s off w).2 = s := by
+  unfold RA.seek
+  by_cases hf : s.fatal = true
+  · simp [hf]
+  · have hf' : s.fatal = false := by simpa using hf
+    by_cases hcs : s.canSeek = true
+    · rcases h with h | h | h
+      · exact absurd h hf
+      · rw [h] at hcs; cases hcs
+      · subst h; simp [hf', hcs]
+    · have : s.canSeek = false := by simpa using hcs
+      simp [hf', this]
+
+/-- **A failing seek callback is reported**: if the callback fails at its next invocation with
+code `a < 0`, the seek request returns `a` (whatever the target), and `position` stays. -/
+theorem seek_callback_fault_reported (s : State) (off : Int) (w : Whence) (a : Int) (hc : CacheOk s)
+    (hs : s.hasSeeker = true) (hcs : s.canSeek = true) (hf : s.fatal = false) (hw : w ≠ .other)
+    (hh : s.seeks.head? = some a) (ha : a < 0) :
+    (RA.seek s off w).1 = a := by
+  have hne := hc.ne
+  have key : ∀ (stopAt : Option Int), ∃ c1 s1, walkKnown stopAt (s.nodes.length - 1) 0 s = .at_ c1 s1 ∧
+      ∃ s2, walkProbe stopAt (s.nodes.length - 1 - c1) c1 s1 = .fail a s2 := by
+    intro stopAt
+    obtain ⟨c1, s1, e1, _, _, _, _, _, e7, e8⟩ :=
+      walkKnown_spec stopAt (s.nodes.length - 1) 0 s hc (known_zero s hc) (passed_zero _ _) (by omega)
+    exact ⟨c1, s1, e1, walkProbe_head_fail stopAt _ c1 s1 a (by rw [e7.hasSeeker]; exact hs)
+      (by rw [e8.2.2.1]; exact hh) ha⟩
+  unfold RA.seek
+  simp only [hf, hcs, Bool.false_eq_true, if_false, Bool.not_true]
+  cases w with
+  | set =>
+    obtain ⟨c1, s1, e1, s2, e2⟩ := key (some off)
+    simp [seekSet, e1, e2]
+  | cur =>
+    obtain ⟨c1, s1, e1, s2, e2⟩ := key (some (off + s.position))
+    simp [seekSet, e1, e2]
+  | end_ =>
+    obtain ⟨c1, s1, e1, s2, e2⟩ := key none
+    simp [seekEnd, e1, e2]
+  | other => exact absurd rfl hw
+
+/-- "A refused seek leaves the stream where it was" — what a caller that probes and falls back
+relies on. -/
+def FailedSeekLeavesStream : Prop :=
+  ∀ (nodes : List (List Nat)) (blk : Nat → Nat → Nat → Nat) (off : Int) (w : Whence), nodes ≠ [] →
+    (RA.seek (openSeekable nodes blk .eof [] true) off w).1 < 0 →
+    remaining (RA.seek (openSeekable nodes blk .eof [] true) off w).2 = remaining (openSeekable nodes blk .eof [] true)
+
+/-- **Finding (open): it does not.**  Volumes of 5 and 3 bytes, nothing read yet, a seek to offset 9
+(one behind the end): it is refused (ARCHIVE_FATAL), `position` is still 0 and `fatal` is not
+set — but the client has been switched to the last volume and moved to its end to learn the
+sizes, so the 8 bytes that were ahead are gone: the next read-ahead reports end of file.  With
+data buffered the buffered bytes are followed by bytes from the other place (replayed on the
+real code by the harness, known finding "seek-failure-desync"). -/
+theorem failed_seek_leaves_stream_false : ¬ FailedSeekLeavesStream := by
+  intro h
+  have := h [[1, 2, 3, 4, 5], [6, 7, 8]] (fun _ _ _ => 2) 9 .set (by simp) (by decide +kernel)
+  revert this
+  decide +kernel
+
+/-- The same refused seek in detail: reported, position and `fatal` unchanged, stream lost. -/
+example : (RA.seek (openSeekable [[1, 2, 3, 4, 5], [6, 7, 8]] (fun _ _ _ => 2) .eof [] true) 9 .set).1 = -30 ∧
+    (RA.seek (openSeekable [[1, 2, 3, 4, 5], [6, 7, 8]] (fun _ _ _ => 2) .eof [] true) 9 .set).2.position = 0 ∧
+    (RA.seek (openSeekable [[1, 2, 3, 4, 5], [6, 7, 8]] (fun _ _ _ => 2) .eof [] true) 9 .set).2.fatal = false ∧
+    remaining (RA.seek (openSeekable [[1, 2, 3, 4, 5], [6, 7, 8]] (fun _ _ _ => 2) .eof [] true) 9 .set).2 = [] ∧
+    remaining (openSeekable [[1, 2, 3, 4, 5], [6, 7, 8]] (fun _ _ _ => 2) .eof [] true) = [1, 2, 3, 4, 5, 6, 7, 8] := by
+  refine ⟨by decide +kernel, by decide +kernel, by decide +kernel, by decide +kernel, by decide +kernel⟩
+
+/-- The same finding on the state the harness reaches by `open` (which peeks one byte: the
+first 2-byte block is buffered): after the refused seek to offset 9 the buffered bytes 1, 2 are
+followed by nothing — the remaining six bytes are lost, and nothing marks the filter.  This is
+the known-finding witness replayed on the real code on every run (`seek 9 set` answers
+ARCHIVE_FATAL, the next `ahead 3` a short read of 2 bytes with `end=no`). -/
+def afterOpen : State :=
+  { openSeekable [[1, 2, 3, 4, 5], [6, 7, 8]] (fun _ _ _ => 2) .eof [] true with
+    cblk := [1, 2]
+    cavail := 2
+    src := [[3, 4], [5]] }
+
+theorem failed_seek_after_open :
+    Inv afterOpen ∧ remaining afterOpen = (allBytes afterOpen).drop afterOpen.position ∧
+    (RA.seek afterOpen 9 .set).1 = -30 ∧ (RA.seek afterOpen 9 .set).2.position = 0 ∧
+    (RA.seek afterOpen 9 .set).2.fatal = false ∧ remaining (RA.seek afterOpen 9 .set).2 = [1, 2] ∧
+    remaining afterOpen = [1, 2, 3, 4, 5, 6, 7, 8] := by
+  refine ⟨?_, by decide +kernel, by decide +kernel, by decide +kernel, by decide +kernel, by decide +kernel,
+    by decide +kernel⟩
+  exact { cbIn := by decide +kernel, bufLt := by decide +kernel, clientEq := by decide +kernel,
+          prov := ⟨[], [], by decide +kernel, by decide +kernel, by decide +kernel, by decide +kernel⟩,
+          eofSrc := (by decide +kernel),
+          srcOk := (by intro b hb; simp [afterOpen] at hb; rcases hb with rfl | rfl <;> simp),
+          laterOk := (by
+            intro n hn
+            have : n = [[6, 7], [8]] := by
+              have h2 : afterOpen.later = [[[6, 7], [8]]] := by decide +kernel
+              rw [h2] at hn; simpa using hn
+            subst this
+            intro b hb; simp at hb; rcases hb with rfl | rfl <;> simp) }
+
+/-- Non-vacuity of `seek_never_silent` / `seek_callback_fault_reported`: a three-node source
+whose seek callback fails with code -7 at its first invocation. -/
+example : ({ openSeekable [[1, 2, 3], [], [4, 5, 6, 7]] (fun _ _ _ => 2) .eof [] true with seeks := [-7] } : State).seeks.head? = some (-7) ∧
+    (RA.seek { openSeekable [[1, 2, 3], [], [4, 5, 6, 7]] (fun _ _ _ => 2) .eof [] true with seeks := [-7] } 2 .set).1 = -7 :=
+  ⟨rfl, by decide +kernel⟩
+
+inductive Op | ahead (min : Nat) | consume (n : Int) | seek (off : Int) (w : Whence)
 
 /-- Windows handed out over a sequence of operations. -/
 def windows : State → List Op → List (List Nat)
@@ -153,8 +392,19 @@ def windows : State → List Op → List (List Nat)
     | .window w _ => w :: windows (RA.ahead s min).2 ops
     | _ => windows (RA.ahead s min).2 ops
   | s, .consume n :: ops => windows (RA.consume s n).2 ops
+  | s, .seek off w :: ops => windows (RA.seek s off w).2 ops
 
-theorem consume_suffix (s : State) (n : Int) (hi : Inv s) :
+/-- State after a sequence of interface operations. -/
+def runOps : State → List Op → State
+  | s, [] => s
+  | s, .ahead m :: ops => runOps (RA.ahead s m).2 ops
+  | s, .consume n :: ops => runOps (RA.consume s n).2 ops
+  | s, .seek off w :: ops => runOps (RA.seek s off w).2 ops
+
+def OpsOk (ops : List Op) : Prop :=
+  ∀ op ∈ ops, match op with | .ahead m => m ≤ 2 ^ 62 | _ => True
+
+theorem consume_suffix (s : State) (n : Int) (hi : Inv s) (hns : NoSeekSkip s) :
     Inv (consume s n).2 ∧ ∃ k, remaining (consume s n).2 = (remaining s).drop k := by
   unfold consume
   by_cases h1 : n < 0
@@ -166,85 +416,215 @@ theorem consume_suffix (s : State) (n : Int) (hi : Inv s) :
       · simp only [advance, hf, if_true]
         split <;> exact ⟨hi, 0, by simp⟩
       · have hf' : s.fatal = false := by simpa using hf
-        obtain ⟨g1, _, g3, _⟩ := advance_spec s n.toNat hi hf' (by omega)
+        obtain ⟨g1, _, g3, _⟩ := advance_spec s n.toNat hi hf' (by omega) hns
         generalize advance s n.toNat = r at *
         obtain ⟨a, b⟩ := r
         simp only [] at g1 g3 ⊢
         split <;> exact ⟨g1, g3⟩
 
-/-- **C08, no invented data.**  For every source script, every skip script
-(including failing and misbehaving ones) and every sequence of interface
-operations, each window a parser is given is a contiguous piece of the original
-stream. -/
-theorem no_invented_data (s : State) (ops : List Op) (hi : Inv s)
-    (hmin : ∀ op ∈ ops, match op with | .ahead m => m ≤ 2 ^ 62 | .consume _ => True) :
+theorem ahead_suffix (s : State) (m : Nat) (hi : Inv s) (hm : m ≤ 2 ^ 62) :
+    Inv (RA.ahead s m).2 ∧ remaining (RA.ahead s m).2 = remaining s ∧
+    ∀ w fc, (RA.ahead s m).1 = .window w fc → w <+: remaining s := by
+  refine ⟨(ahead_refines s m hi hm).1, ?_, fun w fc h => (window_is_stream_prefix s m hi hm w fc h).1⟩
+  unfold RA.ahead
+  by_cases hf : s.fatal = true
+  · simp [hf]
+  · have hf' : s.fatal = false := by simpa using hf
+    simp only [hf', Bool.false_eq_true, if_false]
+    obtain ⟨_, _, _, g4⟩ := aheadLoop_spec s m hi hf' hm
+    generalize aheadLoop s m = r at *
+    obtain ⟨r1, s'⟩ := r
+    cases r1 with
+    | window w fc => exact g4.1
+    | short k => exact g4.1
+    | fatal => exact g4.1
+    | stuck => exact absurd g4 id
+
+/-- The client reads only while the filter is known to be in step with its source: `sy` starts
+true, becomes false when a seek fails after it may have moved the client, true again when a
+seek succeeds. -/
+def opsSafe : State → Bool → List Op → Bool
+  | _, _, [] => true
+  | s, sy, .ahead m :: ops => sy && opsSafe (RA.ahead s m).2 sy ops
+  | s, sy, .consume n :: ops => sy && opsSafe (RA.consume s n).2 sy ops
+  | s, sy, .seek off w :: ops =>
+    opsSafe (RA.seek s off w).2
+      (decide (0 ≤ (RA.seek s off w).1) || (sy && (s.fatal || !s.canSeek || decide (w = .other)))) ops
+
+/-- Whether the filter is in step with its source after the operations. -/
+def syncAfter : State → Bool → List Op → Bool
+  | _, sy, [] => sy
+  | s, sy, .ahead m :: ops => syncAfter (RA.ahead s m).2 sy ops
+  | s, sy, .consume n :: ops => syncAfter (RA.consume s n).2 sy ops
+  | s, sy, .seek off w :: ops =>
+    syncAfter (RA.seek s off w).2
+      (decide (0 ≤ (RA.seek s off w).1) || (sy && (s.fatal || !s.canSeek || decide (w = .other)))) ops
+
+/-- What holds of a seekable source at every point of any history. -/
+structure SeekableInv (all : List Nat) (s : State) (sy : Bool) : Prop where
+  bufLt : s.bufSize < 2 ^ 63
+  cache : CacheOk s
+  seeker : s.hasSeeker = true
+  bytes : allBytes s = all
+  noSeekSkip : NoSeekSkip s
+  sync : sy = true → Inv s ∧ ∃ k, remaining s = all.drop k
+
+/-- One induction for the two theorems below. -/
+theorem ops_invariant (all : List Nat) (s : State) (sy : Bool) (ops : List Op) (hj : SeekableInv all s sy)
+    (hsafe : opsSafe s sy ops = true) (hmin : OpsOk ops) :
+    (∀ w ∈ windows s ops, ∃ k, w <+: all.drop k) ∧ SeekableInv all (runOps s ops) (syncAfter s sy ops) := by
+  induction ops generalizing s sy with
+  | nil => exact ⟨fun w hw => by simp [windows] at hw, hj⟩
+  | cons op ops ih =>
+    have hmin' : OpsOk ops := fun o ho => hmin o (List.mem_cons_of_mem _ ho)
+    cases op with
+    | ahead m =>
+      have hm : m ≤ 2 ^ 62 := hmin (.ahead m) (by simp)
+      simp only [opsSafe, Bool.and_eq_true] at hsafe
+      obtain ⟨hsy, hsafe'⟩ := hsafe
+      obtain ⟨hi, k0, hk0⟩ := hj.sync hsy
+      obtain ⟨i1, i2, i3⟩ := ahead_suffix s m hi hm
+      have hst := ahead_static s m
+      have hj' : SeekableInv all (RA.ahead s m).2 sy :=
+        { bufLt := i1.bufLt, cache := cacheOk_of_static hst hj.cache, seeker := by rw [hst.hasSeeker]; exact hj.seeker,
+          bytes := by unfold allBytes; rw [hst.nodes]; exact hj.bytes,
+          noSeekSkip := noSeekSkip_of_static hst hj.noSeekSkip,
+          sync := fun _ => ⟨i1, k0, by rw [i2]; exact hk0⟩ }
+      obtain ⟨r1, r2⟩ := ih _ _ hj' hsafe' hmin'
+      refine ⟨?_, r2⟩
+      intro w hw
+      simp only [windows] at hw
+      split at hw
+      · rename_i w0 fc hwin
+        rcases List.mem_cons.mp hw with rfl | hw'
+        · exact ⟨k0, by rw [← hk0]; exact i3 w fc hwin⟩
+        · exact r1 w hw'
+      · exact r1 w hw
+    | consume n =>
+      simp only [opsSafe, Bool.and_eq_true] at hsafe
+      obtain ⟨hsy, hsafe'⟩ := hsafe
+      obtain ⟨hi, k0, hk0⟩ := hj.sync hsy
+      obtain ⟨i1, k, hk⟩ := consume_suffix s n hi hj.noSeekSkip
+      have hst := (consume_static s n).1
+      have hj' : SeekableInv all (RA.consume s n).2 sy :=
+        { bufLt := i1.bufLt, cache := cacheOk_of_static hst hj.cache, seeker := by rw [hst.hasSeeker]; exact hj.seeker,
+          bytes := by unfold allBytes; rw [hst.nodes]; exact hj.bytes,
+          noSeekSkip := noSeekSkip_of_static hst hj.noSeekSkip,
+          sync := fun _ => ⟨i1, k0 + k, by rw [hk, hk0, List.drop_drop]⟩ }
+      obtain ⟨r1, r2⟩ := ih _ _ hj' hsafe' hmin'
+      exact ⟨fun w hw => r1 w (by simpa [windows] using hw), r2⟩
+    | seek off w =>
+      simp only [opsSafe] at hsafe
+      have hstep : SeekableInv all (RA.seek s off w).2
+          (decide (0 ≤ (RA.seek s off w).1) || (sy && (s.fatal || !s.canSeek || decide (w = .other)))) := by
+        by_cases hcl : s.fatal = true ∨ s.canSeek = false ∨ w = .other
+        · obtain ⟨c1, c2⟩ := seek_refused_untouched s off w hcl
+          have hneg : decide (0 ≤ (RA.seek s off w).1) = false := by simp; omega
+          rw [c2, hneg]
+          simp only [Bool.false_or]
+          exact { hj with sync := fun h => hj.sync (by simp at h; exact h.1) }
+        · have hf : s.fatal = false := by
+            cases hq : s.fatal
+            · rfl
+            · exact absurd (Or.inl hq) hcl
+          have hcs : s.canSeek = true := by
+            cases hq : s.canSeek
+            · exact absurd (Or.inr (Or.inl hq)) hcl
+            · rfl
+          have hw : w ≠ .other := fun hq => hcl (Or.inr (Or.inr hq))
+          have hdirty : (sy && (s.fatal || !s.canSeek || decide (w = .other))) = false := by simp [hf, hcs, hw]
+          rw [hdirty, Bool.or_false]
+          have hsp := seek_spec s off w hj.cache hj.seeker hcs hf hj.bufLt
+          have hfr : ∀ s', Filt s s' → CacheOk s' → SeekableInv all s' false := fun s' hfi hc' =>
+            { bufLt := by rw [hfi.bufSize]; exact hj.bufLt, cache := hc', seeker := by rw [hfi.hasSeeker]; exact hj.seeker,
+              bytes := by unfold allBytes; rw [hfi.nodes]; exact hj.bytes,
+              noSeekSkip := by
+                have := hj.noSeekSkip
+                unfold NoSeekSkip at *; rw [hfi.noSkipper, hfi.hasSeeker]; exact this,
+              sync := fun h => by cases h }
+          cases ht : targetOf s off w with
+          | none => cases w <;> simp [targetOf] at ht; exact absurd rfl hw
+          | some t =>
+            rw [ht] at hsp
+            simp only [] at hsp
+            have hfail : SeekFail s (RA.seek s off w) → SeekableInv all (RA.seek s off w).2 (decide (0 ≤ (RA.seek s off w).1)) := by
+              intro bad
+              have hneg : decide (0 ≤ (RA.seek s off w).1) = false := by simp; exact bad.1
+              rw [hneg]; exact hfr _ bad.2.1 bad.2.2
+            rcases hsp with ⟨p1, _, _⟩ | ⟨p, _⟩
+            · rcases p1 with ok | bad
+              · obtain ⟨o1, o2, o3, o4, o5, o6, o7⟩ := ok
+                have hpos : decide (0 ≤ (RA.seek s off w).1) = true := by simp; exact o1
+                rw [hpos]
+                exact { bufLt := o2.bufLt, cache := o3, seeker := by rw [o7.hasSeeker]; exact hj.seeker,
+                        bytes := by unfold allBytes; rw [o7.nodes]; exact hj.bytes,
+                        noSeekSkip := by
+                          have := hj.noSeekSkip
+                          unfold NoSeekSkip at *; rw [o7.noSkipper, o7.hasSeeker]; exact this,
+                        sync := fun _ => ⟨o2, (RA.seek s off w).1.toNat, by rw [o5, hj.bytes]⟩ }
+              · exact hfail bad
+            · exact hfail p
+      obtain ⟨r1, r2⟩ := ih _ _ hstep hsafe hmin'
+      exact ⟨fun w' hw' => r1 w' (by simpa [windows] using hw'), r2⟩
+
+/-- **C08, no invented data (sequential sources).**  For every source script, every skip
+script (including failing and misbehaving ones) and every sequence of interface operations
+(seek requests are refused by a source that cannot seek and change nothing), each window a
+parser is given is a contiguous piece of the original stream. -/
+theorem no_invented_data (s : State) (ops : List Op) (hi : Inv s) (hns : NoSeekSkip s) (hcs : s.canSeek = false)
+    (hmin : OpsOk ops) :
     ∀ w ∈ windows s ops, ∃ k, w <+: (remaining s).drop k := by
   induction ops generalizing s with
   | nil => intro w hw; simp [windows] at hw
   | cons op ops ih =>
-    have hmin' : ∀ op ∈ ops, match op with | .ahead m => m ≤ 2 ^ 62 | .consume _ => True :=
-      fun o ho => hmin o (List.mem_cons_of_mem _ ho)
+    have hmin' : OpsOk ops := fun o ho => hmin o (List.mem_cons_of_mem _ ho)
     cases op with
     | consume n =>
-      obtain ⟨i1, k, hk⟩ := consume_suffix s n hi
+      obtain ⟨i1, k, hk⟩ := consume_suffix s n hi hns
+      have hst := (consume_static s n).1
       intro w hw
       simp only [windows] at hw
-      obtain ⟨k', hk'⟩ := ih _ i1 hmin' w hw
+      obtain ⟨k', hk'⟩ := ih _ i1 (noSeekSkip_of_static hst hns) (by rw [hst.canSeek]; exact hcs) hmin' w hw
       exact ⟨k + k', by rw [hk, List.drop_drop] at hk'; exact hk'⟩
     | ahead m =>
       have hm : m ≤ 2 ^ 62 := hmin (.ahead m) (by simp)
-      obtain ⟨i1, _, _, _, _⟩ := ahead_refines s m hi hm
-      have hrem : (RA.ahead s m).2.fatal = false → remaining (RA.ahead s m).2 = remaining s := by
-        intro hnf
-        unfold RA.ahead at hnf ⊢
-        by_cases hf : s.fatal = true
-        · simp [hf]
-        · have hf' : s.fatal = false := by simpa using hf
-          simp only [hf', Bool.false_eq_true, if_false] at hnf ⊢
-          obtain ⟨_, _, _, g4⟩ := aheadLoop_spec s m hi hf' hm
-          generalize aheadLoop s m = r at *
-          obtain ⟨r1, s'⟩ := r
-          cases r1 with
-          | window w fc => exact g4.1
-          | short k => exact g4.1
-          | fatal => exact g4.1
-          | stuck => exact absurd g4 id
+      obtain ⟨i1, i2, i3⟩ := ahead_suffix s m hi hm
+      have hst := ahead_static s m
       intro w hw
       simp only [windows] at hw
-      -- windows after a failed `ahead`: the state is fatal, later peeks return nothing
-      by_cases hnf : (RA.ahead s m).2.fatal = false
-      · have hr := hrem hnf
-        split at hw
-        · rename_i w0 fc hwin
-          rcases List.mem_cons.mp hw with rfl | hw'
-          · exact ⟨0, by simpa using (window_is_stream_prefix s m hi hm w fc hwin).1⟩
-          · obtain ⟨k, hk⟩ := ih _ i1 hmin' w hw'
-            exact ⟨k, by rw [hr] at hk; exact hk⟩
-        · obtain ⟨k, hk⟩ := ih _ i1 hmin' w hw
-          exact ⟨k, by rw [hr] at hk; exact hk⟩
-      · -- failed: use the generic suffix fact (`remaining` only shrinks)
-        have hsuf : ∃ k, remaining (RA.ahead s m).2 = (remaining s).drop k := by
-          unfold RA.ahead
-          by_cases hf : s.fatal = true
-          · simp only [hf, if_true]; exact ⟨0, by simp⟩
-          · have hf' : s.fatal = false := by simpa using hf
-            simp only [hf', Bool.false_eq_true, if_false]
-            obtain ⟨_, _, _, g4⟩ := aheadLoop_spec s m hi hf' hm
-            generalize aheadLoop s m = r at *
-            obtain ⟨r1, s'⟩ := r
-            cases r1 with
-            | window w fc => exact ⟨0, by simpa using g4.1⟩
-            | short k => exact ⟨0, by simpa using g4.1⟩
-            | fatal => exact ⟨0, by simpa using g4.1⟩
-            | stuck => exact absurd g4 id
-        obtain ⟨k0, hk0⟩ := hsuf
-        split at hw
-        · rename_i w0 fc hwin
-          rcases List.mem_cons.mp hw with rfl | hw'
-          · exact ⟨0, by simpa using (window_is_stream_prefix s m hi hm w fc hwin).1⟩
-          · obtain ⟨k, hk⟩ := ih _ i1 hmin' w hw'
-            exact ⟨k0 + k, by rw [hk0, List.drop_drop] at hk; exact hk⟩
-        · obtain ⟨k, hk⟩ := ih _ i1 hmin' w hw
-          exact ⟨k0 + k, by rw [hk0, List.drop_drop] at hk; exact hk⟩
+      have hrec := ih _ i1 (noSeekSkip_of_static hst hns) (by rw [hst.canSeek]; exact hcs) hmin'
+      rw [i2] at hrec
+      split at hw
+      · rename_i w0 fc hwin
+        rcases List.mem_cons.mp hw with rfl | hw'
+        · exact ⟨0, by simpa using i3 w fc hwin⟩
+        · exact hrec w hw'
+      · exact hrec w hw
+    | seek off w =>
+      obtain ⟨_, c2⟩ := seek_refused_untouched s off w (Or.inr (Or.inl hcs))
+      intro w' hw'
+      simp only [windows, c2] at hw'
+      exact ih s hi hns hcs hmin' w' hw'
+
+/-- **C08, no invented data (seekable sources).**  For a seekable source of any number of
+data nodes, every skip script and every seek script (errors and block-aligned landings at any
+invocation), and every sequence of peeks, consumes and seeks in which the client does not read
+between a failed seek and the next successful one: each window a parser is given is a
+contiguous piece of the stream. -/
+theorem no_invented_data_seek (s : State) (ops : List Op) (hi : Inv s) (hc : CacheOk s) (hs : s.hasSeeker = true)
+    (hns : NoSeekSkip s) (hsync : ∃ k, remaining s = (allBytes s).drop k)
+    (hsafe : opsSafe s true ops = true) (hmin : OpsOk ops) :
+    ∀ w ∈ windows s ops, ∃ k, w <+: (allBytes s).drop k :=
+  (ops_invariant (allBytes s) s true ops
+    { bufLt := hi.bufLt, cache := hc, seeker := hs, bytes := rfl, noSeekSkip := hns, sync := fun _ => ⟨hi, hsync⟩ }
+    hsafe hmin).1
+
+/-- Non-vacuity of `no_invented_data_seek`: three nodes, a failing seek callback (third
+invocation), a history that seeks out of range, recovers with a good seek and reads on. -/
+example : opsSafe (openSeekable [[1, 2, 3], [], [4, 5, 6, 7]] (fun _ _ _ => 2) .eof [] true) true
+    [.seek 9 .set, .seek 5 .set, .seek 99 .other] = true ∧
+    OpsOk [.seek 9 .set, .seek 5 .set, .ahead 2, .consume 1] := by
+  refine ⟨by decide, ?_⟩
+  intro op h; simp at h; rcases h with rfl | rfl | rfl | rfl <;> simp
 
 end LA.C08
